@@ -476,10 +476,11 @@ class StreamableHTTPTransport(Transport):
             return
 
         try:
-            from chuk_mcp.protocol.messages.json_rpc_message import JSONRPCMessage
+            from chuk_mcp.protocol.messages.json_rpc_message import parse_message
 
-            # Create JSON-RPC message
-            message = JSONRPCMessage.model_validate(response_data)  # type: ignore[attr-defined]
+            # Create JSON-RPC message (parse_message, as the stdio transport does:
+            # a response whose result is not an object is still a response)
+            message = parse_message(response_data)
 
             # Check if this is a response (has id but no method)
             if hasattr(message, "id") and message.id and not hasattr(message, "method"):
@@ -498,7 +499,7 @@ class StreamableHTTPTransport(Transport):
                 await self._incoming_send.send(message)
                 self._routed_messages += 1
                 logger.debug(
-                    f"Routed message to incoming stream: {message.method or 'response'}"
+                    f"Routed message to incoming stream: {getattr(message, 'method', None) or 'response'}"
                 )
 
         except Exception as e:
